@@ -33,15 +33,18 @@ SP(k, v) == [k |-> k, v |-> v, doc |-> VUnspec]
 DivZero == ABin("/", AInt(1), ABin("-", AInt(1), AInt(1)))
 DivFZero == ABin("/", AInt(1), ABin("-", AFlt(1, 1), AFlt(1, 1)))                    \* an integer over a computed float zero
 DivFZero2 == ABin("/", AInt(3), ACall("float", <<AStr(<<48>>)>>))
+\* a failing evaluation as the RIGHT operand of a concatenation / of arithmetic
+ConcFail == ABin("+", AStr(<<110, 61>>), ACall("str", <<ABin("/", AInt(10), ACall("strlen", <<AStr(<<>>)>>))>>))
+MathFail == ABin("-", AInt(7), ABin("/", AInt(1), ACall("strlen", <<AStr(<<>>)>>)))
 KeyOnKey == ABin("+", AKey, AStr(<<98>>))                                             \* `key` inside a KEY expression is the empty key
 BadDist == ACall("l2_distance", <<ACall("list", <<AInt(1), AInt(2)>>), ACall("list", <<AInt(1)>>)>>)
 
 KeyPool == { AStr(k1), AStr(k2), AInt(7), ABin("+", AStr(<<107>>), AStr(<<51>>)), ACall("upper", <<AStr(k4)>>),
-             ACall("lower", <<AStr(<<75, 49>>)>>), DivZero, KeyOnKey }
+             ACall("lower", <<AStr(<<75, 49>>)>>), DivZero, KeyOnKey, ConcFail, AStr(<<97, 98, 255, 99>>) }
 ValPool == { AStr(<<118, 49>>), AInt(5), ABin("+", AStr(<<118, 95>>), AKey), ACall("upper", <<ABin("+", AStr(<<118>>), AKey)>>),
-             ACall("str", <<ACall("strlen", <<AKey>>)>>), BadDist, AFlt(3, 1), DivFZero, DivFZero2 }
+             ACall("str", <<ACall("strlen", <<AKey>>)>>), BadDist, AFlt(3, 1), DivFZero, DivFZero2, ConcFail, MathFail }
 SmallKeys == { AStr(k1), ACall("lower", <<AStr(<<75, 49>>)>>), AStr(k2), KeyOnKey }
-SmallVals == { AStr(<<118, 49>>), ABin("+", AStr(<<118, 95>>), AKey), BadDist, DivFZero }
+SmallVals == { AStr(<<118, 49>>), ABin("+", AStr(<<118, 95>>), AKey), BadDist, DivFZero, ConcFail, ACall("upper", <<AKey>>) }
 
 PairSeqs == { <<PP(k, v)>> : k \in KeyPool, v \in ValPool }
             \cup (IF MaxPairs >= 2 THEN { <<PP(a, b), PP(c, d)>> : a \in KeyPool, b \in ValPool, c \in KeyPool, d \in SmallVals } ELSE {})
